@@ -378,9 +378,17 @@ def cmd_check(prop, tier):
     exit_code = 0
     reported = []
     unconfirmed = []
+    if os.environ.get('VERIF_LIST_ONLY'):
+        for sig in sorted(fresh):
+            print('SIG %s x%d e.g. job %d: %s' % (sig, len(fresh[sig]), fresh[sig][0]['job'], fresh[sig][0]['detail'][:500]))
+        for sig, n in sorted(cross.items()):
+            print('CROSS %s x%d' % (sig, n))
+        shutil.rmtree(rundir, ignore_errors=True)
+        return 0
     if harness:
         print('HARNESS: %d runs used an unsupported construct: %s' % (len(harness), harness[0]['detail'][:200]))
-    for sig in sorted(fresh)[:4]:
+    only = os.environ.get('VERIF_ONLY_SIG')
+    for sig in [x for x in sorted(fresh) if not only or fnmatch.fnmatchcase(x, only)][:4]:
         vs = sorted(fresh[sig], key=lambda v: (len(json.dumps(spec_to_json(v['spec']))), v['job']))
         print('candidate violation %s (seen in %d jobs), first: job %d: %s' % (sig, len(vs), vs[0]['job'], vs[0]['detail'][:300]))
         # gate: a candidate must reproduce twice in fresh processes (a result that depended on what the
